@@ -349,9 +349,14 @@ func inspect(c *ev.Case, ctx *lib.Ctx, m *diam.Message, in []byte, class string)
 			// to the square of the number of AVPs
 			runtime.ReadMemStats(&ms1)
 			bound := 16 * uint64(depth+2) * memBound(len(in))
+			if o.name == "Serialize" || o.name == "Len" {
+				// nothing is rendered here: the wire image is as large as the input was,
+				// whatever the nesting
+				bound = memBound(len(in))
+			}
 			if alloc := ms1.TotalAlloc - ms0.TotalAlloc; alloc > bound {
 				c.Fail(ev.Sig{"op": "over-allocation", "call": o.name}, in[:min(len(in), 64)], map[string]any{"supplied": len(in), "allocated": alloc, "bound": bound, "depth": depth},
-					"%s of a decoded message allocated %d bytes for %d supplied bytes and nesting depth %d (bound 16*(depth+2)*(64*len+1MiB) = %d) (%s, dict %s)", o.name, alloc, len(in), depth, bound, class, ctx.Name)
+					"%s of a decoded message allocated %d bytes for %d supplied bytes and nesting depth %d (bound 16*(depth+2)*(64*len+1MiB) for renderings and struct unmarshalling, 64*len+1MiB for Serialize and Len: %d) (%s, dict %s)", o.name, alloc, len(in), depth, bound, class, ctx.Name)
 				return false
 			}
 			c.Event("inspections_memory_bounded", 1)
@@ -702,6 +707,31 @@ func TestC03(t *testing.T) {
 		d := depths[c.I%len(depths)]
 		code := grouped[c.I/len(depths)]
 		offer(c, def, nestBomb(code, d), fmt.Sprintf("nest/depth=%d", d))
+	})
+
+	// 3'. deep and heavy: a chain of nested groups around one large value (what the decoder
+	//     accepted is then rendered, searched and serialised again: no inspection may need the
+	//     value's size once per level of nesting)
+	heavy := [][2]int{{100, 1 << 20}, {50, 1 << 20}, {127, 64 << 10}, {120, 256 << 10}, {10, 4 << 20}, {128, 4 << 10}}
+	rec.Suite("nested-around-a-large-value", len(heavy)*2, func(c *ev.Case) {
+		d, sz := heavy[c.I%len(heavy)][0], heavy[c.I%len(heavy)][1]
+		code := grouped[(c.I/len(heavy))%len(grouped)]
+		total := 20 + 8*d + 8 + sz
+		b := make([]byte, total)
+		copy(b, refcodec.EncodeHeader(refcodec.Header{Version: 1, Length: uint32(total), Flags: 0x80, Code: 257, HopByHop: 1, EndToEnd: 1}))
+		for i := 0; i < d; i++ {
+			off := 20 + 8*i
+			binary.BigEndian.PutUint32(b[off:], code)
+			b[off+4] = 0x40
+			put24(b, off+5, total-off)
+		}
+		off := 20 + 8*d
+		binary.BigEndian.PutUint32(b[off:], 0x00E10001) // nobody's code: opaque data
+		put24(b, off+5, 8+sz)
+		for i := off + 8; i < total; i++ {
+			b[i] = byte(i)
+		}
+		offer(c, def, b, fmt.Sprintf("nested-around-a-large-value/depth=%d/size=%d", d, sz))
 	})
 
 	// 3a. wide instead of deep: one group holding many members that are groups themselves
